@@ -481,3 +481,49 @@ def assign_pairs(st):
         else:
             out.append((t, st.value))
     return out
+
+
+def eval_pure(node, env):
+    """value of an integer / boolean expression over names bound in env (constant evaluation of arithmetic, bit operations, comparisons, and / or / not,
+    conditional expressions); None when something else occurs.  No repository code is executed."""
+    if isinstance(node, ast.Constant) and isinstance(node.value, (int, bool)):
+        return node.value
+    if isinstance(node, ast.Name):
+        return env.get(node.id)
+    if isinstance(node, ast.BinOp):
+        a, b = eval_pure(node.left, env), eval_pure(node.right, env)
+        if a is None or b is None:
+            return None
+        try:
+            return {ast.Add: lambda: a + b, ast.Sub: lambda: a - b, ast.BitAnd: lambda: a & b, ast.BitOr: lambda: a | b, ast.BitXor: lambda: a ^ b,
+                    ast.LShift: lambda: a << b, ast.RShift: lambda: a >> b, ast.Mult: lambda: a * b, ast.FloorDiv: lambda: a // b, ast.Mod: lambda: a % b}[type(node.op)]()
+        except (KeyError, ValueError, ZeroDivisionError):
+            return None
+    if isinstance(node, ast.UnaryOp):
+        v = eval_pure(node.operand, env)
+        if v is None:
+            return None
+        return {ast.Invert: lambda: ~v, ast.Not: lambda: not v, ast.USub: lambda: -v, ast.UAdd: lambda: +v}[type(node.op)]()
+    if isinstance(node, ast.Compare):
+        left = eval_pure(node.left, env)
+        for op, c in zip(node.ops, node.comparators):
+            right = eval_pure(c, env)
+            if left is None or right is None:
+                return None
+            f = {ast.Eq: lambda x, y: x == y, ast.NotEq: lambda x, y: x != y, ast.Lt: lambda x, y: x < y, ast.LtE: lambda x, y: x <= y,
+                 ast.Gt: lambda x, y: x > y, ast.GtE: lambda x, y: x >= y}.get(type(op))
+            if f is None:
+                return None
+            if not f(left, right):
+                return False
+            left = right
+        return True
+    if isinstance(node, ast.BoolOp):
+        vals = [eval_pure(v, env) for v in node.values]
+        if any(v is None for v in vals):
+            return None
+        return all(vals) if isinstance(node.op, ast.And) else any(vals)
+    if isinstance(node, ast.IfExp):
+        t = eval_pure(node.test, env)
+        return None if t is None else eval_pure(node.body if t else node.orelse, env)
+    return None
